@@ -48,7 +48,7 @@ impl Consumer for Scripted {
         self.answer()
     }
     fn consume_instruction(&mut self, inst: dr::Instruction) -> ParseAction {
-        self.log.push(format!("instruction {}", inst.class.opname));
+        self.log.push(format!("instruction {} {:?}", inst.class.opname, inst.operands));
         self.insts.push(inst);
         self.answer()
     }
